@@ -307,6 +307,11 @@ def _iterable(it):
     if is_t(it, "call") and it[1] in (G("map"), G("jax.util.safe_map")) and len(it[2]) == 2 and not it[3] and (is_t(it[2][0], "attr") or is_t(it[2][0], "global")):
         xs = _iterable(it[2][1])
         return ("fam", xs, ("call", it[2][0], (mk_elem(xs),), ()))
+    # for i in range(len(xs)) / range(a, len(xs)): i runs over the positions of xs (from a on); xs[i] is then the element (see Evaluator index rule)
+    if is_t(it, "call") and it[1] == G("range") and not it[3] and len(it[2]) in (1, 2) and is_t(it[2][-1], "call") and it[2][-1][1] == G("len") and len(it[2][-1][2]) == 1:
+        xs = it[2][-1][2][0]
+        start = it[2][0] if len(it[2]) == 2 else C(0)
+        return ("positions", xs, start)
     # xs[::-1] is reversed(xs)
     if is_t(it, "index") and it[2] == ("sliceobj", C(None), C(None), C(-1)):
         return ("reversed", _iterable(it[1]))
@@ -595,6 +600,10 @@ def mk_elem(it):
     """the generic element of iterable `it`"""
     if is_t(it, "fam"):
         return it[2]
+    if is_t(it, "positions"):
+        # the running index: start + (position within xs[start:]); for start 0 the position itself
+        base_ = it[1] if it[2] == C(0) else ("index", it[1], ("sliceobj", it[2], C(None), C(None)))
+        return ("enumidx", base_) if it[2] == C(0) else ("bin", "+", it[2], ("enumidx", base_))
     if is_t(it, "items"):
         return mk_tuple((("elem", it[1]), ("index", it[1], ("elem", it[1]))))
     if is_t(it, "values"):
@@ -1262,7 +1271,13 @@ class _Ctx:
             short = base[1].split(".")[-1]
             if short in self.ev.prog.class_index:
                 return base
-        return ("index", base, self.expr(sl, env))
+        ix = self.expr(sl, env)
+        # xs[i] with i the running index of `for i in range(a, len(xs))` is the element of xs[a:] at that position
+        if ix == ("enumidx", base):
+            return ("elem", base)
+        if is_t(ix, "bin") and ix[1] == "+" and is_t(ix[3], "enumidx") and ix[3][1] == ("index", base, ("sliceobj", ix[2], C(None), C(None))):
+            return ("elem", ix[3][1])
+        return ("index", base, ix)
 
     def comp_iter(self, gens, cenv):
         its = []
